@@ -157,10 +157,19 @@ def history_family():
             par = N('parallel', 1, [N(kind, 9, trans=[T(203, None, None, default_to)]), a, b], trans=[T(204, b'out', None, [8])])
             o = N('state', 8, trans=[T(208, b'back', None, [9])])
             out.append(N('scxml', 0, [par, o]))
+    # a deep history whose default transition has SEVERAL targets, each two or more levels below a region of a <parallel>
+    # (the ancestors of every target have to be entered, not only those of the first one)
+    for default_to in ([4, 7], [7, 4], [4, 14], [12, 13, 7][:2], [4, 13]):
+        r1 = N('state', 3, [N('state', 10, [N('state', 4, trans=[T(301, b'n', None, [12])]), N('state', 12)])])
+        r2 = N('state', 6, [N('state', 13, trans=[T(302, b'k', None, [7])]), N('state', 11, [N('state', 14), N('state', 7, trans=[T(303, b'n', None, [14])])])])
+        s1 = N('state', 1, [N('hd', 9, trans=[T(103, None, None, default_to)]), N('parallel', 2, [r1, r2])], trans=[T(104, b'out', None, [5])])
+        o = N('state', 5, trans=[T(108, b'back', None, [9]), T(109, b'm', None, [9])])
+        out.append(N('scxml', 0, [o, s1]))
+        out.append(N('scxml', 0, [s1, o]))
     return out
 
 
-HISTORY_WORDS = [[b'out', b'back', b'm', b'out', b'back'], [b'n', b'out', b'back', b'm', b'out', b'back'],
+HISTORY_WORDS = [[b'back'], [b'out', b'back', b'm', b'out', b'back'], [b'n', b'out', b'back', b'm', b'out', b'back'],
                  [b'out', b'back', b'n', b'out', b'back'], [b'k', b'out', b'back', b'n', b'out', b'back'],
                  [b'k', b'out', b'back', b'm', b'out', b'back', b'm', b'out', b'back'], [b'm', b'out', b'back', b'm', b'out', b'back']]
 
